@@ -187,8 +187,11 @@ def discharge_one(job):
             r3, dt3 = _run_cli([Z3_OLD, '-T:%d' % max(1, int(timeout_ms / 1000)), '-smt2'], smt2, timeout_ms / 1000.0)
             res['tried'].append(('z3-4.8.12', r3, round(dt3, 3)))
             res['time_s'] += dt3
-            if r3 in ('sat', 'unsat'):
+            if r3 == 'unsat':
                 res.update(status=r3, solver='z3-4.8.12')
+            elif r3 == 'sat':
+                # the old z3 gives no model here and its sequence solver is not trusted for `sat`
+                res.update(status='unknown', solver=None)
     if job.get('confirm') and res['status'] == 'unsat':
         # thorough: second opinion
         other = None
